@@ -1343,10 +1343,45 @@ mod handle_cache_helpers {
                 comprash::UriKey::Path(path_query.into_path())
             };
             debug!("Caching uri {:?}!", &key);
+            // Other requests may have cached variants of this page while this response was
+            // computed: it joins them, like a variant that was missing (`handle_vary_missing`),
+            // instead of replacing them.
+            if let Some((cached, stored)) = cache.get_cache_item(&key).into_option() {
+                let variant = response.first();
+                let len = variant.0.get_identity().body().len();
+                if let Some(variant_lifetime) =
+                    comprash::ResponseCache::storage_lifetime(&variant.0)
+                {
+                    if cache.fits(len) {
+                        let mut joined = (*cached).clone();
+                        joined.push_variant(Arc::clone(variant));
+                        cache.insert(len, joined_lifetime(&stored, variant_lifetime), key, joined);
+                    }
+                }
+                return None;
+            }
             cache.insert_cache_item(key, response);
             return None;
         }
         Some(response)
+    }
+    /// How long an entry may be kept once a variant has joined it: what's left of the lifetime
+    /// of the variants already there, but not longer than the new variant may be kept.
+    fn joined_lifetime(
+        stored: &(OffsetDateTime, HeaderValue, Option<Duration>),
+        variant: Option<Duration>,
+    ) -> Option<Duration> {
+        let left = stored.2.map(|dur| {
+            dur.saturating_sub(
+                (OffsetDateTime::now_utc() - stored.0)
+                    .max(time::Duration::ZERO)
+                    .unsigned_abs(),
+            )
+        });
+        match (left, variant) {
+            (Some(left), Some(variant)) => Some(left.min(variant)),
+            (left, variant) => left.or(variant),
+        }
     }
     pub(super) async fn handle_vary_missing(
         request: &mut FatRequest,
@@ -1409,20 +1444,7 @@ mod handle_cache_helpers {
                 let len = compressed_response.get_identity().body().len();
                 let a = Arc::clone(resp.push_response(compressed_response, params));
                 if let Some(cache) = &host.response_cache {
-                    // what's left of the lifetime of the variants already there,
-                    // but not longer than the new variant may be kept
-                    let left = lifetime.2.map(|dur| {
-                        dur.saturating_sub(
-                            (OffsetDateTime::now_utc() - lifetime.0)
-                                .max(time::Duration::ZERO)
-                                .unsigned_abs(),
-                        )
-                    });
-                    let lifetime = match (left, variant_lifetime) {
-                        (Some(left), Some(variant)) => Some(left.min(variant)),
-                        (left, variant) => left.or(variant),
-                    };
-                    cache.insert(len, lifetime, key, resp);
+                    cache.insert(len, joined_lifetime(&lifetime, variant_lifetime), key, resp);
                 }
                 a
             }
